@@ -35,11 +35,12 @@ NEW_REGS = [("NsN", (True, 32)), ("NtN", (True, 32)), ("PtN", (True, 8)), ("PuN"
 DEST_REGS = [("RdV", (True, 32)), ("RddV", (True, 64)), ("PdV", (True, 8)), ("ReV", (True, 32)), ("CdV", (True, 32))]
 RW_REGS = [("RxV", (True, 32)), ("RxxV", (True, 64)), ("RyV", (True, 32)), ("PxV", (True, 8))]
 EXPLICIT_REGS = [("P0", (True, 8)), ("P1", (True, 8)), ("P3", (True, 8)), ("R0", (True, 32)), ("R31", (True, 32)), ("R1:0", (True, 64)),
-                 ("R31:30", (True, 64)), ("C1:0", (True, 64)), ("C11:10", (True, 64)), ("P0_NEW", (True, 8)), ("P1_NEW", (True, 8)), ("R2_NEW", (True, 32))]
+                 ("R31:30", (True, 64)), ("C1:0", (True, 64)), ("C11:10", (True, 64)), ("P0_NEW", (True, 8)), ("P1_NEW", (True, 8)), ("R2_NEW", (True, 32)),
+                 ("R11", (True, 32)), ("R22", (True, 32)), ("R10", (True, 32)), ("C11", (True, 32))]
 ALIAS_REGS = [("HEX_REG_ALIAS_SP", (False, 32)), ("HEX_REG_ALIAS_LR", (False, 32)), ("HEX_REG_ALIAS_FP", (False, 32)), ("HEX_REG_ALIAS_GP", (False, 32)),
               ("HEX_REG_ALIAS_LC0", (False, 32)), ("HEX_REG_ALIAS_SA0", (False, 32)), ("HEX_REG_ALIAS_PC", (False, 32)), ("HEX_REG_ALIAS_USR", (False, 32)),
               ("HEX_REG_ALIAS_UPCYCLE", (False, 64)), ("HEX_REG_ALIAS_LR_NEW", (False, 32))]
-EXPLICIT_DESTS = [("P0", (True, 8)), ("P1", (True, 8)), ("P3", (True, 8)), ("R31", (True, 32)), ("HEX_REG_ALIAS_SP", (False, 32)), ("HEX_REG_ALIAS_LR", (False, 32)),
+EXPLICIT_DESTS = [("P0", (True, 8)), ("P1", (True, 8)), ("P3", (True, 8)), ("R31", (True, 32)), ("R11", (True, 32)), ("R22", (True, 32)), ("HEX_REG_ALIAS_SP", (False, 32)), ("HEX_REG_ALIAS_LR", (False, 32)),
                   ("HEX_REG_ALIAS_LC0", (False, 32)), ("HEX_REG_ALIAS_SA0", (False, 32))]
 IMMS = [("siV", True), ("uiV", False), ("riV", True), ("RiV", True), ("SiV", True), ("UiV", False), ("miV", False), ("niV", False)]
 BINOPS = ["+", "-", "*", "&", "|", "^"]
@@ -371,7 +372,9 @@ def stmt_features(s, out: set):
             out.add("stmt_expr_bare")
         lt = ctype(lhs)
         if op != "=":
-            if lt[1] < 32 or op == "%=":
+            # the arithmetic / shift forms promote and do not convert back (listed finding); `&= |= ^=` work on the
+            # target's own type and are as C prescribes
+            if (lt[1] < 32 and op not in ("&=", "|=", "^=")) or op == "%=":
                 out.add("narrow_compound")
             if op in ("<<=", ">>=") and ctype(e) != lt:
                 pass
@@ -381,7 +384,7 @@ def stmt_features(s, out: set):
         stmt_features(("assign", s[2], s[3], s[4]), out)
         if _conv_risky(ctype(s[2]), ctype(s[1])):
             out.add("signed_widen_to_unsigned")
-        if s[3] != "=" and ctype(s[2])[1] < 32:
+        if s[3] not in ("=", "&=", "|=", "^=") and ctype(s[2])[1] < 32:
             out.add("narrow_compound")
     elif k == "store":
         if s[2] is not None:
